@@ -15,10 +15,13 @@ from treelib import T, O, XL
 
 PROP = "C09"
 HEADER = '''Require Import WS Tree. From Coq Require Import List ZArith Bool Arith. Import ListNotations.
-Definition insertion (o : op) := match o with OWrapOff _ _ _ _ | OWrapRe _ _ _ | OInsert _ _ => true | _ => false end.
-Definition stripping (o : op) := match o with OStripTags _ _ | OStripElems => true | _ => false end.
+Definition insertion (o : op) := match o with OWrapOff _ _ _ _ | OWrapRe _ _ _ | OInsert _ _ | OInsertRange _ _ _ _ => true | _ => false end.
+Definition stripping (o : op) := match o with OStripTags _ _ | OStripElems | OStripDefault _ _ _ => true | _ => false end.
 Definition top_eq (x y : node) := match x, y with Node k a _ _ _ tl, Node k' a' _ _ _ tl' =>
   kind_eqb k k' && Nat.eqb a a' && str_eqb (oget tl) (oget tl') end.
+Definition top_ok (o : op) (x y : node) := match o with
+  | OStripDefault _ _ a0 => match y with Node k a _ _ _ tl => kind_eqb k KP && Nat.eqb a a0 && str_eqb (oget tl) [] end
+  | _ => top_eq x y end.
 (* 0 agree | 1 text differs from what the property requires | 2 markup sits elsewhere / wraps something else than the model says
    3 error behaviour (raises or not; partial modification) | 4 strip changed the text exactly as the modelled " +" rewrite does (F16 class)
    5 insertion changed the text exactly as the model predicts (negative offset class) | 6 composite call differs from its two documented steps
@@ -45,9 +48,9 @@ Definition chk (c : node * op * bool * node) : nat :=
   | None => if raised && evs_eqb (nview qc) (nview pc) then 0 else 3
   | Some m =>
      if raised then 3 else
-     let agree := evs_eqb (nview m) (nview qc) && top_eq pre post in
+     let agree := evs_eqb (nview m) (nview qc) && top_ok o pre post in
      if insertion o && negb (str_eqb (readable_ev qc) (readable_ev pc)) then (if agree then 5 else 1)
-     else if stripping o && negb (str_eqb (raw qc) (raw pc)) then (if agree then 4 else 1)
+     else if stripping o && negb (str_eqb (raw qc) (match o with OStripDefault _ _ _ => raw (flat pre) | _ => raw pc end)) then (if agree then 4 else 1)
      else if negb (str_eqb (readable_ev qc) (readable_ev m)) then 1
      else if negb agree then (match o with OSame => 6 | _ => 2 end)
      else if evs_eqb m qc then 0 else 9
@@ -91,9 +94,9 @@ def fresh_office_name(x):
 def place_coq(st, pre):
     """the `place` argument of Tree.insert_ for a step descriptor"""
     if st.get('before') is not None:
-        return 'WRe false (%d) %s' % (st.get('pos', 0), tl.coq_spans(tl.spans_oracle(st['before'], pre)))
+        return 'WRe false (%d) %s' % (st.get('pos', 0), tl.coq_spans(tl.spans_oracle(st['before'], pre, main=True)))
     if st.get('after') is not None:
-        return 'WRe true (%d) %s' % (st.get('pos', 0), tl.coq_spans(tl.spans_oracle(st['after'], pre)))
+        return 'WRe true (%d) %s' % (st.get('pos', 0), tl.coq_spans(tl.spans_oracle(st['after'], pre, main=True)))
     return 'WPos (%d)' % st.get('pos', 0)
 
 
@@ -200,8 +203,20 @@ class Run:
             m2 = mark_elem(c, 'annotation-end', name, ns=O)
             pub = lambda kw: q.insert_annotation(body=st['body'], creator='cr', date=DATE, **kw)
         if 'rx' in st:
-            s1, s2 = dict(before=st['rx'], pos=st.get('pos', 0)), dict(after=st['rx'], pos=st.get('pos', 0))
+            # content=regex: one search, one model step (Tree.insert_range); then the range predicate on the result
+            ev1, ev2 = tl.coq_evs(tl.elem_events(m1), c), tl.coq_evs(tl.elem_events(m2), c)
             kw = dict(content=st['rx'], position=st.get('pos', 0))
+            q = p       # the public call runs on the live paragraph
+            raised = self.single(p, st, lambda pre: 'OInsertRange %s %s (%d) %s' % (ev1, ev2, st.get('pos', 0),
+                                 tl.coq_spans(tl.spans_oracle(st['rx'], pre, main=True))), lambda: pub(kw), hid, si)
+            fresh = not any(e[0] == 'O' and e[2] in (m1[1], m2[1]) for e in tl.flat(pre0))   # marks identifiable by their attributes
+            if not raised and st.get('pos', 0) >= 0 and fresh:
+                ms = [t[x:y] for t, sp in zip(tl.texts_main(pre0), tl.spans_oracle(st['rx'], pre0, main=True)) for (x, y) in sp]
+                if st.get('pos', 0) < len(ms):
+                    post = self.abs(p)
+                    op = 'OInsert [Txt %s] (WRe true (%d) [[(%d, 0)]])' % (c.cs(ms[st['pos']]), m1[1], m2[1])
+                    self.emit(post, op, False, post, dict(hid=hid, step=si, st=dict(st, part='range'), err=None))
+            return raised
         else:
             s1, s2 = dict(pos=st['a']), dict(pos=st['b'])
             kw = dict(position=(st['a'], st['b']))
@@ -218,12 +233,6 @@ class Run:
             self.emit(pre0, 'OSame', False, postq, dict(hid=hid, step=si, st=dict(st, part='composite-raised'), err=err))
         else:
             self.emit(self.abs(p), 'OSame', r1 or r2, postq, dict(hid=hid, step=si, st=dict(st, part='composite'), err=err))
-            if 'rx' in st and not (r1 or r2) and st.get('pos', 0) >= 0:
-                # the designated match: the pos-th match over the text nodes of the state before the call
-                ms = [t[x:y] for t, sp in zip(tl.texts(pre0), tl.spans_oracle(st['rx'], pre0)) for (x, y) in sp]
-                if st.get('pos', 0) < len(ms):
-                    op = 'OInsert [Txt %s] (WRe true (%d) [[(%d, 0)]])' % (c.cs(ms[st['pos']]), m1[1], m2[1])
-                    self.emit(postq, op, False, postq, dict(hid=hid, step=si, st=dict(st, part='range'), err=None))
         return r1 or r2
 
     # ------------------------------------------------------------ removals (each on a clone of the state reached)
@@ -235,6 +244,20 @@ class Run:
             return self.strip(q, st, 'OStripTags [KSpan] true', lambda: q.remove_spans(), (), hid, si)
         if k == 'remove_links':
             return self.strip(q, st, 'OStripTags [KLink] false', lambda: q.remove_links(), (), hid, si)
+        if k == 'remove_spans_on':      # Span.remove_spans(): the element itself is stripped, a new text:p is returned
+            cand = [e for e in xs if e.tag == T + 'span']
+            if not cand:
+                return None
+            x = cand[st['idx'] % len(cand)]
+            el = o.Element.from_tag(x)
+            pre = tl.abs_node(x, c)
+            raised, res, err = self.call(lambda: el.remove_spans())
+            if not raised and not isinstance(res, o.Element):
+                raised, err = True, "returned %r instead of an element" % type(res)
+            post = tl.abs_node(tl.lx(res), c) if not raised else pre
+            self.emit(pre, 'OStripDefault [KSpan] true %d' % c.attr(T + 'p', {}), raised, post, dict(hid=hid, step=si, st=st, err=err))
+            self.hist[k] = self.hist.get(k, 0) + 1
+            return raised
         if k in ('remove_span', 'remove_link'):
             tag = T + ('span' if k == 'remove_span' else 'a')
             cand = [e for e in xs if e.tag == tag]
@@ -323,7 +346,8 @@ def gen_insertion(rng, L, edge):
 def removals(rng, nel):
     rs = [dict(k='remove_spans'), dict(k='remove_links'),
           dict(k='remove_span', idx=[rng.randint(0, 5)], single=True), dict(k='remove_span', idx=[rng.randint(0, 5), rng.randint(0, 5)]),
-          dict(k='remove_link', idx=[rng.randint(0, 5)], single=rng.random() < .5)]
+          dict(k='remove_link', idx=[rng.randint(0, 5)], single=rng.random() < .5),
+          dict(k='remove_spans_on', idx=rng.randint(0, 5)), dict(k='remove_spans_on', idx=rng.randint(0, 5))]
     for i in range(nel):
         rs.append(dict(k='delete_self', idx=i))
         rs.append(dict(k='delete', idx=i, keep=rng.random() < .8))
@@ -355,7 +379,7 @@ def run_history(R, h, hid):
     else:
         for si, st in enumerate(given):
             steps.append(st)
-            if st['k'] in ('remove_spans', 'remove_links', 'remove_span', 'remove_link', 'delete', 'delete_self'):
+            if st['k'] in ('remove_spans', 'remove_links', 'remove_span', 'remove_link', 'remove_spans_on', 'delete', 'delete_self'):
                 R.removal(p, st, hid, si)
             else:
                 R.insertion(p, st, hid, si)
@@ -370,11 +394,7 @@ def squeeze(s):
 def classify(code, meta):
     """returns a known-finding key or None"""
     st = meta['st']
-    if code == 7 and st['k'] == 'annot2' and any(re.search(st['rx'], t) for t in (st['body'], 'cr', '2020-01-02T03:04:05')):
-        return "insert_annotation/content-regex-matches-own-annotation"
-    if code == 7 and st['k'] in ('bm2', 'ref2', 'annot2') and re.search(r'\^|\$|\\b|\\B|\(\?[=!<]', st.get('rx', '')):
-        return "content-regex/context-dependent-pattern-searched-twice"
-    if code == 4 and squeeze(tl.raw(meta['pre'])) == squeeze(tl.raw(meta['post'])):
+    if code == 4 and squeeze(tl.raw(meta['pre']) + ((meta['pre'][5] or '') if st['k'] == 'remove_spans_on' else '')) == squeeze(tl.raw(meta['post'])):
         return "strip_tags/double-space-created-by-concatenation"
     return None
 
@@ -394,6 +414,8 @@ def py_oracle(meta):
             return None
         return None if tl.readable(pre) == tl.readable(post) else "insertion changed the readable text"
     if st['k'].startswith('remove'):
+        if st['k'] == 'remove_spans_on':     # the element's own tail is embedded too
+            return None if squeeze(tl.raw(pre) + (pre[5] or '')) == squeeze(tl.raw(post)) else "stripping changed characters other than runs of spaces"
         if tl.raw(pre) == tl.raw(post): return None
         return None if squeeze(tl.raw(pre)) == squeeze(tl.raw(post)) else "stripping changed characters other than runs of spaces"
     return None
@@ -473,9 +495,9 @@ def run(tier, seed, replay=None):
     coverage = dict(
         trusted_base=["lxml (text/tail/insert/addnext/remove semantics as exercised; XPath descendant::text())",
                       "Python re: finditer/findall give sorted, non-overlapping, in-range spans; the harness computes them per text node of the abstracted pre-state and hands them to the model",
-                      "modelled in Tree.v: paragraph.py _by_regex_offset/set_span/set_link, element.py _insert/_insert_find_text/_search_*_position/delete/_strip_tags/strip_tags/strip_elements/__append/_add_text; Span(match) through WS.append_plain_text"],
+                      "modelled in Tree.v: paragraph.py _by_regex_offset/set_span/set_link, element.py _insert (main text)/_insert_range/_insert_find_text/_search_*_position/delete/_strip_tags/strip_tags (also on a stripped element)/strip_elements/__append/_add_text; Span(match) through WS.append_plain_text"],
         evaluations=len(terms), distinct_nontrivial=len(nontrivial),
-        rule="histories: generated paragraph tree (text, nested spans/links, text:s/tab/line-break, marks, notes, annotations; every 4th from the edge stream: raw double spaces, negative/far offsets) then 1-3 insertions of mixed kinds (offset/length in and beyond range, 23 regexes without empty matches, position/before/after/content/(a,b)) then every removal on a clone (remove_spans, remove_links, remove_span(s), remove_link, delete(child, keep_tail), child.delete() for every element). One evaluation = one single model step checked by Coq from the abstracted pre-state. non-trivial = the step changed the tree or raised; distinct = distinct (operation, pre-state)",
+        rule="histories: generated paragraph tree (text, nested spans/links, text:s/tab/line-break, marks, notes, annotations; every 4th from the edge stream: raw double spaces, negative/far offsets) then 1-3 insertions of mixed kinds (offset/length in and beyond range, 23 regexes without empty matches, position/before/after/content/(a,b)) then every removal on a clone (remove_spans, remove_links, remove_span(s), remove_link, Span.remove_spans() on inner spans, delete(child, keep_tail), child.delete() for every element). One evaluation = one single model step checked by Coq from the abstracted pre-state. non-trivial = the step changed the tree or raised; distinct = distinct (operation, pre-state)",
         samples=[dict(xml=hs[i]['xml'], steps=all_steps[i][:4]) for i in range(ncorpus, min(len(hs), ncorpus + 3))],
         histories=len(hs), corpus_cases=ncorpus, operation_histogram=R.hist, codes=counts,
         fidelity_divergences=counts.get(9, 0), out_of_domain=counts.get(8, 0), known_findings_reobserved=seen_keys,
